@@ -275,6 +275,8 @@ def families():
     # a flow at which the cutoff decides (requirement 0.9 mm without, 3.7 mm with the low-flow wall treatment)
     F['setup_cutoff'] = S.single(P, 0.05, power=_PW2, gap_model='no_flow',
                                  setup={'conv_approx': True, 'conv_approx_dz_cutoff': 0.002})
+    # a very low but valid flow rate (0.4 g/s)
+    F['tiny_flow'] = S.single(P, 4.0e-4, power=_PW2)
     F['setup_tables'] = S.single(P, 0.5, power=_PW2, setup={'AssemblyTables': {
         't1': {'type': 'coolant_subchannel', 'assemblies': [1], 'axial_positions': [0.1, 0.3]}}})
     F['regions'] = S.single(S.design(2, regions=_REG2), 0.5, power=_PW2)
@@ -344,7 +346,7 @@ def families():
 DATA_FAMILIES = ('full_a', 'full_b', 'core_min', 'setup', 'regions', 'regions_noeps', 'spacer', 'spacer_sol', 'fuelmodel',
                  'fuelmodel_fc', 'pinmodel', 'pinmodel_fc', 'bc_outlet', 'bc_delta', 'orificing', 'multiduct', 'cold_nak',
                  'range_flow', 'range_outlet', 'range_delta',
-                 'setup_mesh', 'setup_plane', 'setup_dump', 'setup_cutoff', 'setup_tables',
+                 'setup_mesh', 'setup_plane', 'setup_dump', 'setup_cutoff', 'setup_tables', 'tiny_flow',
                  'holes_flow', 'holes_outlet', 'holes_delta', 'spacer_k')
 SWEEP_FAMILIES = ('sw_single', 'sw_core7', 'sw_cutoff')
 QUICK_SWEEPS = (('cm', 'celsius', 'kg/s'), ('mm', 'fahrenheit', 'lb/min'), ('in', 'kelvin', 'lb/hr'),
